@@ -37,6 +37,9 @@ pub enum Script {
     BadUpgrade(u8),
     /// valid request (control)
     Valid(u8),
+    /// a burst of connections that are reset (SO_LINGER 0) the moment they are established, so that
+    /// some of them are already dead when the server gets round to accepting them
+    ResetStorm(u8),
 }
 
 fn end() -> impl Strategy<Value = End> {
@@ -59,6 +62,7 @@ fn script() -> impl Strategy<Value = Script> {
         1 => Just(Script::Panic),
         1 => (0u8..4).prop_map(Script::BadUpgrade),
         2 => (0u8..4).prop_map(Script::Valid),
+        1 => (0u8..40).prop_map(Script::ResetStorm),
     ]
 }
 
@@ -154,6 +158,24 @@ async fn read_all_responses(conn: &mut http1::Conn, quiet: Duration, max: usize)
 async fn run_script(addr: std::net::SocketAddr, tls_server: bool, s: Script, id: u64) -> Result<(String, Vec<u16>), Failure> {
     // against an HTTPS server half of the scripts run inside an established TLS session,
     // the other half are thrown at the TLS layer itself
+    if let Script::ResetStorm(n) = &s {
+        let mut tasks = vec![];
+        for _ in 0..4 {
+            let n = *n as usize + 8;
+            tasks.push(tokio::spawn(async move {
+                for _ in 0..n {
+                    if let Ok(t) = tokio::net::TcpStream::connect(addr).await {
+                        let _ = t.set_linger(Some(Duration::from_secs(0)));
+                        drop(t);
+                    }
+                }
+            }));
+        }
+        for t in tasks {
+            let _ = t.await;
+        }
+        return Ok(("reset-storm".into(), vec![]));
+    }
     let inside_tls = tls_server && (id % 2 == 0 || matches!(s, Script::Valid(_) | Script::Panic | Script::Malformed(..)));
     let mut conn = http1::Conn::connect_with(addr, inside_tls).await.map_err(|e| Failure::new("connect", format!("server does not accept connections: {}", e)))?;
     let quiet = Duration::from_millis(match &s {
@@ -217,6 +239,7 @@ async fn run_script(addr: std::net::SocketAddr, tls_server: bool, s: Script, id:
             (http1::build_request("GET", "/health", &headers, None), End::Fin, "bad-upgrade".into(), false, false)
         }
         Script::Valid(w) => (valid_request(*w, id), End::Fin, "valid".into(), false, false),
+        Script::ResetStorm(_) => unreachable!("handled above"),
     };
     // the server may answer and close while we are still writing
     let _ = conn.send_split(&bytes, &[bytes.len() / 2], 0).await;
